@@ -4,7 +4,7 @@ cd /repo || exit 2
 git diff --quiet || { echo "/repo has uncommitted changes"; exit 2; }
 git apply "$1" || { echo "patch does not apply"; exit 2; }
 shift
-cd /verif
+cd ${VDIR:-/verif}
 for p in "$@"; do
   out=$(./check $p 2>&1); rc=$?
   echo "== $p rc=$rc: $(echo "$out" | grep -c '^VIOLATION') VIOLATION lines"
